@@ -140,7 +140,8 @@ func lcBody(prog []int) func() {
 			f()
 			sched.Record("return", name)
 		}
-		open := false // an infinite / ponder search was started (while idle) and not yet stopped or hit
+		open := false  // an infinite / ponder search was started (while idle) and not yet stopped or hit
+		timed := false // some search of this program had a time budget
 		for _, i := range prog {
 			o := lcOps[i]
 			if o.stops || o.hit {
@@ -151,6 +152,9 @@ func lcBody(prog []int) func() {
 				busy := s.IsSearching()
 				if !busy {
 					open = o.infinite || o.ponder
+					if !o.infinite {
+						timed = true // a time-controlled search (movetime, or ponder with clock) has started a timer thread
+					}
 				}
 				sched.Record("start", fmt.Sprintf("%s busy=%v", o.start, busy))
 				var sl search.Limits
@@ -186,7 +190,7 @@ func lcBody(prog []int) func() {
 				sched.Sleep(o.idle)
 			}
 		}
-		if open {
+		if open && timed {
 			// the GUI lets an infinite / ponder search run for a while before it stops it: nothing may answer it meanwhile
 			// (long enough for the budget of an earlier time-controlled search to run out)
 			sched.Sleep(60 * time.Millisecond)
